@@ -16,6 +16,9 @@ package provider
 //@ func storeTime
 //@   assumed
 
+// chanPending(ch): number of keys the (finite, eventually closed) key stream still delivers
+//@ ghost chanPending(ch <-chan cid.Cid) int
+
 // Reprovide: every key handed to the router passed the allowlist, and every round of the
 // outer loop reads the key channel at least once (a batch size of 0 would spin forever
 // without ever seeing the end of the key stream)
@@ -26,5 +29,8 @@ package provider
 //@   modifies all
 //@   dyn calldyn noeffect
 //@   loop 0 invariant[each_round_reads_keys] batchSize >= 1
+// termination: every round consumes a key or sees the end of the stream
+//@   loop 0 decreases 2 * chanPending(kch) + ite(allCidsProcessed, 0, 1)
+//@   loop 1 invariant[keys_only_consumed] chanPending(kch) <= atloop(0, chanPending(kch)) && !allCidsProcessed
 //@   site[announce_only_allowed] builtin:append : validKey(s.allowlist, c) && len(arg1) == 1 && arg1[0] == cidHash(c)
 //@   site[non_empty_batches] call:doProvideMany : len(arg2) > 0
